@@ -80,7 +80,37 @@ impl Oracle for C07 {
     }
 }
 
-pub fn known_trigger(_w: &World, _rec: &StepRecord) -> Option<String> {
+pub fn known_trigger(w: &World, rec: &StepRecord) -> Option<String> {
+    // KF-C07-1 (same root cause as KF-C01-6 / KF-C06-1): since this commit was first handled, the
+    // client rolled back for a "better" candidate that it then refused; the rollback is not
+    // undone, the client sits at the fork point again (its own superseded pending commit restored
+    // by the snapshot) and a sibling commit it had already handled applies when offered again
+    let node = rec.step.node;
+    let Op::Deliver { ev } = &rec.step.op else { return None };
+    let pe = w.ev(*ev)?;
+    if pe.kind != EvKind::Commit {
+        return None;
+    }
+    let first = w.delivered[node].get(ev).map(|d| d.0)?;
+    let mut seen_first = false;
+    for r in &w.history {
+        if r.step.node != node {
+            continue;
+        }
+        if r.step.id == first {
+            seen_first = true;
+            continue;
+        }
+        if r.step.id == rec.step.id && matches!(&r.step.op, Op::Deliver { ev: e2 } if e2 == ev) && seen_first && std::ptr::eq(r, w.history.last().unwrap()) {
+            break;
+        }
+        if seen_first && r.rollback && is_refusal(&r.class) && matches!(&r.step.op, Op::Deliver { ev: e2 } if w.ev(*e2).map(|p| p.g == pe.g).unwrap_or(false)) {
+            // the client stands in the commit's parent state again
+            if rec.pre_state.get(&pe.g).map(|s| s.1 == pe.parent_state).unwrap_or(false) {
+                return Some("KF-C07-1".into());
+            }
+        }
+    }
     None
 }
 
